@@ -14,9 +14,11 @@
  *   L k ncomp nt il nentries n b..    GRwritelut                                   -> L ok|fail
  *   J k il                            GRreqlutil                                   -> J ok|fail
  *   P k                               GRgetlutinfo + GRreadlut                     -> P ok ncomp nt il nent b..|none
+ *   O k w h ncomp ctype n b..         old-style raster: DFR8addimage (ncomp 1; ctype 1 = RLE) / DF24addimage -> O ok|fail
+ *   U n b..                           DFCIrle + DFCIunrle on one row               -> U ok decoded.. | encoded..
  *   E                                 GRendaccess*, GRend, Hclose, Hopen, GRstart, GRselect by name -> E ok|fail
- *   X k oa ob n b..                   GRwritechunk                                 -> X ok|fail
- *   Y k oa ob n                       GRreadchunk (n = bytes expected)             -> Y ok b..|fail
+ *   X k c0 c1 o0 o1 n b..             GRwritechunk of chunk (o0,o1); c0,c1 = chunk lengths -> X ok|fail
+ *   Y k c0 c1 o0 o1 n                 GRreadchunk (n = bytes expected)             -> Y ok b..|fail
  *   D k                               raw image element bytes (Hgetelement)        -> D ok len b..|none
  *   V inil outil X Y nc nt n b..      direct call of GRIil_convert                 -> V ok b..|fail
  * "trace" = the Hseek/Hwrite/Hread calls GRwriteimage/GRreadimage issue on the image element
@@ -34,6 +36,8 @@
 static int32 fid = FAIL, grid = FAIL;
 static int32 riid[NSLOT];
 static int   used[NSLOT];
+static int   legacy[NSLOT]; /* old-style image (DFR8/DF24): selected by index = order of addition */
+static int   nlegacy = 0;
 static char  path[4096];
 
 /* ---- call trace through --wrap ---------------------------------------------------------------- */
@@ -122,6 +126,39 @@ static long pix_mem_size(int k)
 
 static int okslot(long k) { return k >= 0 && k < NSLOT && used[k] && riid[k] != FAIL; }
 
+/* GRendaccess*, GRend, Hclose (returns 0 if any failed) */
+static int end_session(void)
+{
+    int k, ok = 1;
+    if (grid == FAIL) return 0;
+    for (k = 0; k < NSLOT; k++)
+        if (used[k] && riid[k] != FAIL && GRendaccess(riid[k]) == FAIL) ok = 0;
+    if (GRend(grid) == FAIL) ok = 0;
+    if (Hclose(fid) == FAIL) ok = 0;
+    fid = grid = FAIL;
+    for (k = 0; k < NSLOT; k++) riid[k] = FAIL;
+    return ok;
+}
+
+/* Hopen, GRstart, GRselect of every slot (by name, or by index for old-style images) */
+static int start_session(void)
+{
+    int  k, ok = 1;
+    char name[32];
+    fid  = Hopen(path, DFACC_RDWR, 0);
+    grid = fid == FAIL ? FAIL : GRstart(fid);
+    if (grid == FAIL) return 0;
+    for (k = 0; k < NSLOT; k++)
+        if (used[k]) {
+            int32 idx;
+            if (legacy[k]) idx = legacy[k] - 1;
+            else { sprintf(name, "img%d", k); idx = GRnametoindex(grid, name); }
+            riid[k] = idx == FAIL ? FAIL : GRselect(grid, idx);
+            if (riid[k] == FAIL) ok = 0;
+        }
+    return ok;
+}
+
 int main(int argc, char **argv)
 {
     FILE *f;
@@ -140,7 +177,11 @@ int main(int argc, char **argv)
             case 'H': {
                 if (fscanf(f, "%ld", &a[0]) != 1) return 3;
                 close_all();
-                for (k = 0; k < NSLOT; k++) used[k] = 0;
+                for (k = 0; k < NSLOT; k++) { used[k] = 0; legacy[k] = 0; }
+                nlegacy = 0;
+                remove(path);
+                /* one file per history: a session that could not be closed must not disturb the next history */
+                snprintf(path, sizeof path, "%s.%ld.hdf", argv[1], a[0]);
                 remove(path);
                 fid = Hopen(path, DFACC_CREATE, 0);
                 grid = fid == FAIL ? FAIL : GRstart(fid);
@@ -295,55 +336,82 @@ int main(int argc, char **argv)
                 break;
             }
             case 'E': {
-                int ok = 1;
-                char name[32];
+                int ok;
                 if (grid == FAIL) { printf("E fail\n"); break; }
-                for (k = 0; k < NSLOT; k++)
-                    if (used[k] && riid[k] != FAIL && GRendaccess(riid[k]) == FAIL) ok = 0;
-                if (GRend(grid) == FAIL) ok = 0;
-                if (Hclose(fid) == FAIL) ok = 0;
-                fid = grid = FAIL;
-                for (k = 0; k < NSLOT; k++) riid[k] = FAIL;
-                fid = Hopen(path, DFACC_RDWR, 0);
-                grid = fid == FAIL ? FAIL : GRstart(fid);
-                if (grid == FAIL) ok = 0;
-                else
-                    for (k = 0; k < NSLOT; k++)
-                        if (used[k]) {
-                            int32 idx;
-                            sprintf(name, "img%d", k);
-                            idx = GRnametoindex(grid, name);
-                            riid[k] = idx == FAIL ? FAIL : GRselect(grid, idx);
-                            if (riid[k] == FAIL) ok = 0;
-                        }
+                ok = end_session();
+                if (!ok && getenv("DRIVE_GR_DEBUG")) HEprint(stderr, 0);
+                if (!start_session()) ok = 0;
                 printf("E %s\n", ok ? "ok" : "fail");
                 break;
             }
-            case 'X': {
+            case 'O': { /* O k w h ncomp ctype n b..: old-style raster through DFR8addimage / DF24addimage */
+                unsigned char *b;
+                int ok = 1;
+                intn rc = FAIL;
+                for (i = 0; i < 6; i++) if (fscanf(f, "%ld", &a[i]) != 1) return 3;
+                b = read_bytes(f, a[5]);
+                k = (int)a[0];
+                if (k < 0 || k >= NSLOT || used[k] || grid == FAIL || a[5] != a[1] * a[2] * a[3]) { printf("O fail\n"); free(b); break; }
+                if (!end_session()) ok = 0;
+                if (a[3] == 1) {
+                    comp_info ci;
+                    memset(&ci, 0, sizeof ci);
+                    DFR8restart();
+                    if (DFR8setcompress(a[4] == 1 ? COMP_RLE : COMP_NONE, &ci) != FAIL)
+                        rc = DFR8addimage(path, b, (int32)a[1], (int32)a[2], (uint16)(a[4] == 1 ? COMP_RLE : COMP_NONE));
+                }
+                else if (a[3] == 3) {
+                    DF24restart();
+                    comp_info ci;
+                    memset(&ci, 0, sizeof ci);
+                    if (DF24setil(DFIL_PIXEL) != FAIL && DF24setcompress(COMP_NONE, &ci) != FAIL)
+                        rc = DF24addimage(path, b, (int32)a[1], (int32)a[2]);
+                }
+                if (rc != FAIL) { used[k] = 1; legacy[k] = ++nlegacy; }
+                if (!start_session()) ok = 0;
+                printf("O %s\n", (rc != FAIL && ok) ? "ok" : "fail");
+                free(b);
+                break;
+            }
+            case 'U': { /* U n b..: DFCIrle then DFCIunrle on one row: decoded | encoded */
+                unsigned char *b, *e, *o;
+                int32 en;
+                if (fscanf(f, "%ld", &a[0]) != 1) return 3;
+                b = read_bytes(f, a[0]);
+                e = (unsigned char *)malloc((size_t)(a[0] * 121 / 120 + 128 + 300));
+                o = (unsigned char *)malloc(a[0] > 0 ? (size_t)a[0] : 1);
+                memset(o, 0xAA, a[0] > 0 ? (size_t)a[0] : 1);
+                en = DFCIrle(b, e, (int32)a[0]);
+                DFCIunrle(e, o, (int32)a[0], 1);
+                printf("U ok"); print_bytes(o, a[0]); printf(" |"); print_bytes(e, en); printf("\n");
+                free(b); free(e); free(o);
+                break;
+            }
+            case 'X': { /* X k c0 c1 o0 o1 n b.. (c0, c1: chunk lengths, known to the generator; not used here) */
                 unsigned char *b;
                 int32 org[2];
                 intn  rc = FAIL;
-                for (i = 0; i < 4; i++) if (fscanf(f, "%ld", &a[i]) != 1) return 3;
-                b = read_bytes(f, a[3]);
+                for (i = 0; i < 6; i++) if (fscanf(f, "%ld", &a[i]) != 1) return 3;
+                b = read_bytes(f, a[5]);
                 k = (int)a[0];
-                org[0] = (int32)a[1]; org[1] = (int32)a[2];
-                if (okslot(k)) rc = GRwritechunk(riid[k], org, b);
+                org[0] = (int32)a[3]; org[1] = (int32)a[4];
+                if (okslot(k) && pix_mem_size(k) > 0 && pix_mem_size(k) * a[1] * a[2] == a[5]) rc = GRwritechunk(riid[k], org, b);
                 printf("X %s\n", rc == FAIL ? "fail" : "ok");
                 free(b);
                 break;
             }
-            case 'Y': {
+            case 'Y': { /* Y k c0 c1 o0 o1 n */
                 unsigned char *b;
                 int32 org[2];
                 intn  rc = FAIL;
-                for (i = 0; i < 4; i++) if (fscanf(f, "%ld", &a[i]) != 1) return 3;
+                for (i = 0; i < 6; i++) if (fscanf(f, "%ld", &a[i]) != 1) return 3;
                 k = (int)a[0];
-                org[0] = (int32)a[1]; org[1] = (int32)a[2];
-                b = (unsigned char *)malloc(a[3] > 0 ? (size_t)a[3] : 1);
-                memset(b, 0xAA, a[3] > 0 ? (size_t)a[3] : 1);
-                if (okslot(k)) rc = GRreadchunk(riid[k], org, b);
+                org[0] = (int32)a[3]; org[1] = (int32)a[4];
+                b = (unsigned char *)malloc(a[5] > 0 ? (size_t)a[5] : 1);
+                memset(b, 0xAA, a[5] > 0 ? (size_t)a[5] : 1);
+                if (okslot(k) && pix_mem_size(k) > 0 && pix_mem_size(k) * a[1] * a[2] == a[5]) rc = GRreadchunk(riid[k], org, b);
                 if (rc == FAIL) printf("Y fail\n");
-                else { printf("Y ok"); print_bytes(b, a[3]); printf("\n"); }
+                else { printf("Y ok"); print_bytes(b, a[5]); printf("\n"); }
                 free(b);
                 break;
             }
